@@ -380,6 +380,8 @@ public:
     Command* decl;
     const Token& startTok;
     bool shellEscapeInAndOut;
+    /// The rule parameters currently being expanded (innermost last).
+    SmallVector<StringRef, 8> activeNames;
   };
   static void lookupBuildParameter(void* userContext, StringRef name,
                                    raw_ostream& result) {
@@ -421,11 +423,20 @@ public:
     }
     auto it2 = decl->getRule()->getParameters().find(name);
     if (it2 != decl->getRule()->getParameters().end()) {
+      // A rule parameter that (transitively) refers to itself would recurse
+      // forever; like Ninja, report the cycle instead.
+      if (llvm::is_contained(context->activeNames, name)) {
+        error("cycle in rule variables involving '" + name.str() + "'",
+              context->startTok);
+        return;
+      }
+      context->activeNames.push_back(name);
       evalString(context, it2->second, result, lookupBuildParameter,
                  /*Error=*/ [&](const std::string& msg) {
                    error(msg + " during evaluation of '" + name.str() + "'",
                          context->startTok);
                  });
+      context->activeNames.pop_back();
       return;
     }
       
